@@ -117,6 +117,7 @@ class Ctx:
         self.vals = [hval(self.hb, h) for h in self.hs]
         self.cache = {}
         self.timeouts = 0
+        self.c19_seen = set()
         signal.signal(signal.SIGALRM, _alarm)
 
     def close(self):
@@ -202,7 +203,10 @@ class Ctx:
             if got != lay:
                 t.add_drift(ENGINE, {"cfg": c, "history": hist, "expected_layout": lay, "observed_layout": got})
         if t.focus == "C19":
-            self._c19(t, qf, rp)
+            k19 = hash(repr((c, hist)))
+            if k19 not in self.c19_seen:
+                self.c19_seen.add(k19)
+                self._c19(t, qf, rp)
         raised = None
         same2 = True
         try:
